@@ -5,6 +5,50 @@ import sampler_check as S
 import scenarios
 
 
+def storage_io(chk):
+    """A built-in backend whose sink rejects every write for one chain (the chain's CSV file is a link to /dev/full): the
+    failure of the final write must come back from finalize - as the Err of that chain's part or as the error slot of the
+    trace - and a run without the failing sink must report nothing."""
+    import os, c14
+    if not os.path.exists("/dev/full"):
+        chk.part("storage_io", skipped="no /dev/full")
+        return
+    ops = [{"op": "record", "tuning": True, "div": False, "upd": False}, {"op": "record", "tuning": False, "div": False, "upd": False},
+           {"op": "record", "tuning": False, "div": True, "upd": False}]
+    scs = []
+    for chains in (1, 2, 3):
+        for dev in [None] + list(range(chains)):
+            sc = {"backend": "csv", "preset": "diag_nuts", "dim": 2, "num_tune": 1, "num_draws": 2, "chains": chains,
+                  "store_warmup": True, "chunk": 2, "full_events": True, "optvecs": True, "specials": False, "precision": 6,
+                  "draw_vars": c14.CSV_VARS, "ops": c14.mirror(ops, chains), "workdir": os.path.join(C.WORK, "storage"), "settings": {}}
+            if dev is not None:
+                sc["devfull"] = dev
+            scs.append(sc)
+    wd = C.workdir("c13_io")
+    os.makedirs(os.path.join(C.WORK, "storage"), exist_ok=True)
+    inp, outp = os.path.join(wd, "sc.ndjson"), os.path.join(wd, "out.ndjson")
+    with open(inp, "w") as f:
+        f.write("\n".join(json.dumps(s) for s in scs) + "\n")
+    C.vh(["replay-storage", inp, outp], check=True, timeout=600)
+    n = bad = 0
+    for line in open(outp):
+        d = json.loads(line)
+        fin = [e for e in d["result"]["events"] if e.get("e") == "observe" and e.get("kind") == "finalize"]
+        rec_err = any(e.get("e") == "record" and not e.get("ok", True) for e in d["result"]["events"])
+        reported = rec_err or any((e.get("err") or e.get("fail")) for e in fin) or d["result"]["status"] != "ok"
+        dev = d["scenario"].get("devfull")
+        n += 1
+        if dev is not None and not reported:
+            bad += 1
+            chk.violation("storage:csv_write_error_not_reported", "the CSV file of chain %d rejects every write, yet finalize reported "
+                          "no error: %s" % (dev, json.dumps(fin)[:400]), d)
+        if dev is None and reported:
+            chk.violation("storage:csv_spurious_error", "error reported without a failing sink: %s" % json.dumps(fin)[:400], d)
+    chk.part("storage_io", scenarios=n, unreported=bad)
+    chk.cov["evaluations"] += n
+    chk.cov["distinct_nontrivial"] += n
+
+
 def run(tier):
     chk = C.Check("C13", "model_checking", tier)
     chk.cov["rule"] = ("TLC: Sampler.tla with failure actions (fatal density error at a draw, storage error in record_sample, "
@@ -23,6 +67,7 @@ def run(tier):
     # what abort() returns when a chain has failed: with the failure's message already queued the join must report it
     S.mc(chk, "abort_reports", "Chains2", 1, 2, 1, 1, "FaultsStorage0", False, ["AbortReportsFailure", "NoPanic"], False)
     S.mc(chk, "teeth_unwrap", "Chains2", 1, 2, 1, 1, "FaultsFatal1", True, ["NoPanic"], False, expect_violation="NoPanic")
+    storage_io(chk)
     per = 6 if tier == "quick" else 60
     scs = scenarios.sampler_scenarios(C.seed() * 49979687 + 13, per, "failures")
     scs += scenarios.sampler_scenarios(C.seed() * 49979687 + 14, max(2, per // 3), "density")
